@@ -72,6 +72,7 @@ func c16Facts(l *leanDefs) {
 	l.def("c16ReaderLoop", "List String", leanStrList(c16ReaderLoop()), "pkg/metric_storage/operation/operation.go MetricOperationsFromReader")
 	l.def("c16ReaderWrites", "List String", leanStrList(c16ReaderWrites()), "pkg/metric_storage/operation/operation.go MetricOperationsFromReader")
 	l.def("c16VaultNames", "List String", leanStrList(c16VaultNames()), "pkg/metric_storage/vault/vault.go GetOrCreate{Counter,Gauge}Collector")
+	l.def("c16VecNames", "List String", leanStrList(c16VecNames()), "pkg/metric_storage/metric_storage.go Gauge/RegisterGauge/Counter/RegisterCounter/Histogram/RegisterHistogram")
 }
 
 func c16Print(n any) string {
@@ -214,4 +215,39 @@ func init() {
 			Fields: []string{},
 			Calls:  []string{"New64a", "Write", "Sum64"}},
 	)
+}
+
+// c16VecNames: the same for the ungrouped vecs of MetricStorage — the index expressions of m.Gauges /
+// m.Counters / m.Histograms (lookup in X(), double check and store in RegisterX()), the resolution, and the
+// `Name:` given to the new vec (= the name registered in the registry).
+func c16VecNames() []string {
+	var out []string
+	for _, fn := range []string{"Gauge", "RegisterGauge", "Counter", "RegisterCounter", "Histogram", "RegisterHistogram"} {
+		fd := findFunc("pkg/metric_storage/metric_storage.go", "MetricStorage", fn)
+		if fd == nil || fd.Body == nil {
+			return []string{"?"}
+		}
+		out = append(out, fn+":")
+		ast.Inspect(fd.Body, func(n ast.Node) bool {
+			switch x := n.(type) {
+			case *ast.AssignStmt:
+				if len(x.Rhs) == 1 && len(x.Lhs) == 1 {
+					if c, ok := x.Rhs[0].(*ast.CallExpr); ok && exprStr(c.Fun) == "m.resolveMetricName" {
+						out = append(out, c16Print(x))
+					}
+				}
+			case *ast.IndexExpr:
+				switch exprStr(x.X) {
+				case "m.Gauges", "m.Counters", "m.Histograms":
+					out = append(out, c16Print(x))
+				}
+			case *ast.KeyValueExpr:
+				if exprStr(x.Key) == "Name" {
+					out = append(out, "Name: "+c16Print(x.Value))
+				}
+			}
+			return true
+		})
+	}
+	return out
 }
